@@ -17,20 +17,49 @@ class TemplateError(Exception):
     pass
 
 
+FLAG_BITS = {"sign_plus": 1 << 21, "sign_minus": 1 << 22, "alternate": 1 << 23, "zero_pad": 1 << 24,
+             "debug_lower_hex": 1 << 25, "debug_upper_hex": 1 << 26, "width": 1 << 27, "precision": 1 << 28}
+
+
 def decode_template(b):
-    """-> list of ('lit', bytes) | ('arg', has_options)"""
+    """-> list of ('lit', bytes) | ('arg', options) where options is None (default placeholder) or a dict
+    {flags:set of names, width, precision, arg_index, width_indirect, precision_indirect}
+    (encoding: library/core/src/fmt/mod.rs of the pinned nightly, "template byte sequence")"""
     out = []
     i = 0
     if not b or b[-1] != 0:
         raise TemplateError("template does not end in NUL: %r" % (b,))
-    while i < len(b) - 1:
+    end = len(b) - 1
+    while i < end:
         c = b[i]
         if c == 0xC0:
-            out.append(("arg", False))
+            out.append(("arg", None))
             i += 1
-        elif c == 0xC1:
-            out.append(("arg", True))
-            i += 5
+        elif c > 0xC0:
+            i += 1
+            opt = {"flags": set(), "width": None, "precision": None, "arg_index": None,
+                   "width_indirect": bool(c & 16), "precision_indirect": bool(c & 32)}
+            if c & 1:
+                fl = int.from_bytes(b[i:i + 4], "little")
+                opt["flags"] = set(n for n, bit in FLAG_BITS.items() if fl & bit)
+                opt["raw_flags"] = fl
+                i += 4
+            if c & 2:
+                opt["width"] = int.from_bytes(b[i:i + 2], "little")
+                i += 2
+            if c & 4:
+                opt["precision"] = int.from_bytes(b[i:i + 2], "little")
+                i += 2
+            if c & 8:
+                opt["arg_index"] = int.from_bytes(b[i:i + 2], "little")
+                i += 2
+            if i > end:
+                raise TemplateError("placeholder options run past the template end %r" % (b,))
+            out.append(("arg", opt))
+        elif c == 0x80:
+            ln = int.from_bytes(b[i + 1:i + 3], "little")
+            out.append(("lit", bytes(b[i + 3:i + 3 + ln])))
+            i += 3 + ln
         elif c < 0x80:
             if c == 0:
                 raise TemplateError("NUL inside template %r" % (b,))
@@ -38,7 +67,7 @@ def decode_template(b):
             i += 1 + c
         else:
             raise TemplateError("unknown template opcode 0x%02x in %r" % (c, b))
-    if i != len(b) - 1:
+    if i != end:
         raise TemplateError("template length mismatch %r" % (b,))
     return out
 
@@ -47,8 +76,8 @@ def self_test(prog):
     """known templates of the analysed crate's Display impl for `Error` (source text is fixed by the
     public error messages) must decode as expected"""
     want = {
-        b"\x0cbad header: \xc0\x00": [("lit", b"bad header: "), ("arg", False)],
-        b"\xc0\x02: \x00": [("arg", False), ("lit", b": ")],
+        b"\x0cbad header: \xc0\x00": [("lit", b"bad header: "), ("arg", None)],
+        b"\xc0\x02: \x00": [("arg", None), ("lit", b": ")],
     }
     for t, exp in want.items():
         if decode_template(t) != exp:
@@ -133,11 +162,15 @@ def emission_hook(extra=None):
                     return
                 args = list(l[1][2])
                 pieces = []
+                nxt = 0
                 for piece in tp:
                     if piece[0] == "lit":
                         pieces.append(piece)
                     else:
-                        a = args.pop(0) if args else TOP
+                        if piece[1] and piece[1].get("arg_index") is not None:
+                            nxt = piece[1]["arg_index"]
+                        a = args[nxt] if nxt < len(args) else TOP
+                        nxt += 1
                         if a[0] == "term" and a[1][0] == "fmtarg":
                             pieces.append(("arg", a[1][1], a[1][2], piece[1]))
                         else:
